@@ -21,6 +21,113 @@ PROPS = {
         "level_text": "Proof (of everything that is logic of /repo): pairs_spec - for every accepted generator output the list handed to BLS verification is exactly, in order, (key, message | suffix) for each AGG_SIG condition; suffix_eq_spec / finalMessage_spec - the suffix appended by the code (generated u64_to_bytes / Coin::coin_id ladders) and make_aggsig_final_message equal the prescribed text (canonical amount, SHA-256 coin id, the opcode's constant); domain_separation / unsafe_separated - texts of different coin-bound opcodes never coincide and an accepted AGG_SIG_UNSAFE message never equals one (only needs the seven constants distinct and 32 bytes: distinct_consts, re-checked from the source); sig_needed / sig_sufficient - acceptance depends on the signature exactly through the BLS verdict on those pairs; bad_key_rejected. The correspondence runs real signatures: accept iff the signed multiset equals the prescribed multiset.",
         "level_note": "Trusted: Lean kernel + standard axioms; blst (pairing, hash-to-curve, key validity) is an oracle - its ideal behaviour (aggregate valid iff multisets of (key,text) agree) is assumed in the driver and exercised with real signatures incl. tamperings; model = code on the cases run.",
     },
+    "C06": {
+        "extractors": ["ladders", "opcodes", "flags", "constants"],
+        "theorems": ["ChiaModel.C06.strict_monotone", "ChiaModel.C06.strict_flags_only_restrict", "ChiaModel.C06.strict_mask_only_restrict",
+                     "ChiaModel.C06.strictMask_values", "ChiaModel.C06.cost_strict_equal", "ChiaModel.C06.perm_conditions_partial",
+                     "ChiaModel.C06.perm_accept_iff_partial", "ChiaModel.C06.perm_accept", "ChiaModel.C06.perm_conditions_fields_partial",
+                     "ChiaModel.C06.perm_conditions_loop_partial", "ChiaModel.C06.wrapF_clear_ff", "ChiaModel.C06.perm_conditions_spend_partial",
+                     "ChiaModel.C06.condLoop_factorisation"],
+        "open": ["open_perm_conditions_bundle: a reordering inside one spend carried through the rest of the bundle (spendLoop, post-processing, deferred validation) to parse_spends",
+                 "open_perm_spends: reordering the spends of a bundle - both are covered by the metamorphic correspondence only"],
+        "trivial": r"^A=(REJECT|bad)",
+        "level": "other",
+        "rule": "metamorphic pairs from C01's bundle generator: (strict) the same tree under base|S and base for random non-empty S of {NO_UNKNOWN_CONDS, STRICT_ARGS_COUNT, LIMIT_SPENDS}; (perm) a tree and a copy with spends swapped/reversed and conditions reversed/rotated/swapped inside each spend, under the same flags and visitor; the harness evaluates the property on the two implementation results (strict accepted => lenient accepted with identical summary; same verdict, cost and aggregates up to listing order and the positional FF bit) and the model is run on both members. non-trivial = distinct pair whose first member is accepted",
+        "level_text": "Proof of the first sentence, partial proof of the second. strict_monotone / strict_mask_only_restrict: for every tree, limit, visitor and each of the 8 subsets of the strictness flags, if the parse_spends model accepts with the flags set it accepts without them with the identical bundle summary, parse state and cost (all 35 argument grammars, the spend limit, the unknown-condition rule). Ordering: for one condition loop / one spend, any permutation of the conditions is accepted iff the original is, charges the same cost and yields the same state up to listing order and the positionally defined fast-forward bit (condLoop_factorisation gives an order-free characterisation of the loop); carrying this through the whole bundle and permuting spends is open, hence level other. The metamorphic correspondence checks both sentences on the real code.",
+        "level_note": "Trusted: Lean kernel + standard axioms; model = code on the cases run. Which error a rejected bundle reports may depend on order (not part of the property).",
+    },
+    "C07": {
+        "extractors": ["ladders", "opcodes", "flags", "constants"],
+        "theorems": ["ChiaModel.C07.simple_generator_rules", "ChiaModel.C07.legacy_cost", "ChiaModel.C04.limit_exact", "ChiaModel.C02.accepted_invariants"],
+        "open": ["C07_legacy_accepts / C07_native_accepts (DESIGN 6): legacy accepts => native accepts with the same conditions and no larger cost, under EvalContract + RomSpec + RomCostDominates - models of both paths exist and are compared with the code; the theorem is not proved yet",
+                 "back-reference deserialisation is taken from the harness (decoded program on the case line) until the C17 model is merged"],
+        "trivial": r"^L=REJECT[^|]*\|\| N=REJECT",
+        "level": "other",
+        "rule": "generators: quoted spend lists whose spends carry C01-generated conditions (identity puzzle with the conditions as solution, or quoted puzzle), structural damage (pair amount, raising puzzle, short tuple, improper terminators, non-quote wrapper), plain and back-reference serialisations, the recorded generators of /repo/generator-tests under 20 kB, block reference lists of 0-2, flag subsets of {COST_CONDITIONS, LIMIT_SPENDS, SIMPLE_GENERATOR, INTERNED_GENERATOR, strict}, limits: unbounded, each path's own total and total-1. Every interpreter run (generator, each puzzle, the ROM) is recomputed by the harness with clvmr and shipped as an oracle value; the Lean transcription of the ROM is compared with the ROM's real output on every case (rom=ok). The harness evaluates the property on the two implementation results. non-trivial = distinct case in which at least one path accepts",
+        "level_text": "Model + correspondence + property predicate. Lean models of run_block_generator (ROM path) and run_block_generator2 (native loop: base cost by bytes or interned size, generator and per-puzzle cost countdown, extract_n, puzzle tree hash, nil terminator, SIMPLE_GENERATOR checks) are compared with the real functions on every case: verdict and the full summary for both paths. The property relation itself (both reject, or both accept with identical conditions and native cost <= legacy cost; legacy may additionally fail on cost / interpreter limits) is evaluated on the implementation's two results on every case. The agreement theorem over all programs is still open, hence level other.",
+        "level_note": "Trusted: clvmr (interpreter, serialiser) and the ROM bytes are external: their results enter as per-case oracle values under EvalContract; the harness; model = code on the cases run. One genuine finding is recorded (INTERNED_GENERATOR cost), one defect was repaired (SIMPLE_GENERATOR block references) - see known_findings.txt.",
+        "technique": "Lean 4 executable models of both paths with oracle-supplied interpreter results + differential correspondence + property predicate on implementation results",
+    },
+    "C08": {
+        "extractors": ["ladders", "opcodes", "flags", "constants"],
+        "theorems": ["ChiaModel.C11.clvmBytesLen_ok", "ChiaModel.C04.limit_exact"],
+        "gen_theorems": ["ChiaModel.C11.clvmBytesLen_ok"],
+        "open": ["C08_same_conditions / C08_cost_offset / C08_length as theorems about the models runSpendbundle, buildGenerator, calculateGeneratorLength (DESIGN 6) - currently checked by correspondence on every case"],
+        "trivial": r"^D=REJECT",
+        "level": "other",
+        "rule": "spend bundles of 0-6 coin spends with C01-generated conditions (identity puzzle / quoted puzzle, 2.5% wrong declared puzzle hash), amounts of every encoding length, flag subsets of {COST_CONDITIONS, LIMIT_SPENDS, INTERNED_GENERATOR, strict}; per case: run_spendbundle, solution_generator bytes, calculate_generator_length, solution_generator_backrefs decoding to the same tree, run_block_generator2 on the plain and on the back-reference generator (its byte cost re-based to the plain length). The model prints the bundle-path result, its own serialisation of the generator (must equal the real bytes; predicted = actual length) and the native-path result on it. non-trivial = distinct accepted bundle",
+        "level_text": "Model + correspondence. Lean models of run_spendbundle (base cost from the predicted generator length or the interned size, per-spend run, puzzle-hash check, MempoolVisitor), build_generator (spend order reversed, canonical amounts), calculate_generator_length (generated clvm_bytes_len ladder) and the native block path are compared with the real code on every case, including the exact generator bytes and both block-path runs. clvm_bytes_len is proved equal to the serialised length of the canonical amount for every u64. The equivalence theorems between the two model paths are open, hence level other.",
+        "level_note": "Trusted: clvmr interpreter and serialisers (oracle values / byte comparison); harness; model = code on the cases run.",
+        "technique": "Lean 4 executable models + differential correspondence incl. byte-exact generator serialisation",
+    },
+    "C09": {
+        "extractors": ["ladders", "opcodes", "flags", "constants"],
+        "theorems": ["ChiaModel.C02.accepted_invariants"],
+        "open": ["C09_removals / C09_additions / C09_lookup as theorems relating the scanner models (scanCreateCoins, addRemLoop, getPuzzleAndSolution) to the native model"],
+        "trivial": r"^native-rejects",
+        "level": "other",
+        "rule": "generators accepted by run_block_generator2: 10 memo/hint shapes x 5 amounts x 2 flag sets exhaustively, then quoted spend lists with C01-generated conditions (plain and back-reference serialised, with spend-level and block-level extension data); per case additions_and_removals, get_coinspends_for_trusted_block + solution_generator + re-run, get_puzzle_and_solution_for_coin for every removed coin; the model prints what full validation (native model) prescribes. non-trivial = distinct accepted generator",
+        "level_text": "Model + correspondence against the property's prescription: on every generated block that full validation accepts, the trusted helpers must report exactly the removals (ids and coins, in order) and additions with hints that the validated conditions report (computed by the Lean native-path model), the recovered coin spends must rebuild the same conditions, and every removed coin must be found by the lookup. Two genuine defects found this way were repaired (see known_findings.txt). The scanner-vs-validation theorems are open, hence level other.",
+        "level_note": "Trusted: clvmr (oracle values), harness; model = code on the cases run.",
+        "technique": "Lean 4 executable model of full validation as the prescription for the helpers + differential correspondence",
+    },
+    "C17": {
+        "extractors": ["precomputed"],
+        "harness": "C17",
+        "theorems": [
+            "ChiaModel.C17.precomputed_ok", "ChiaModel.C17.precomputed_entry", "ChiaModel.C17.prefixes_ok",
+            "ChiaModel.C17.iter_run", "ChiaModel.C17.iter_eq", "ChiaModel.C17.hashTable_spec",
+            "ChiaModel.C17.cache_inv_empty", "ChiaModel.C17.cache_inv_visit", "ChiaModel.C17.cache_inv",
+            "ChiaModel.C17.cache_inv_append", "ChiaModel.C17.cached_eq", "ChiaModel.C17.history_eq",
+            "ChiaModel.C17.sharing_irrelevant",
+            "ChiaModel.C17.deser_wf", "ChiaModel.C17.from_bytes_eq", "ChiaModel.C17.from_bytes_none",
+            "ChiaModel.C17.deser_serialize", "ChiaModel.C17.from_bytes_serialize", "ChiaModel.C17.from_bytes_modes",
+            "ChiaModel.C17.curry_eq", "ChiaModel.C17.curry_and_treehash_eq",
+        ],
+        "gen_theorems": ["ChiaModel.C17.precomputed_ok", "ChiaModel.C17.precomputed_entry", "ChiaModel.C17.prefixes_ok"],
+        "open": [],
+        "trivial": r"^(REJECT|bad-op|bad-heap)",
+        "level": "proof",
+        "rule": "(1) PRECOMPUTED_HASHES[0..24) read directly; (2) atoms 0..40 and the neighbours of every representation boundary "
+                "(0x7f/0x80, 0xff/0x100, 0x7fff/0x8000, 2^23, 2^26-1/2^26/2^26+1, 2^31, 2^32-1, 2^64-1) as canonical new_atom, as new_small_number, "
+                "as the same bytes forced onto the allocator heap (new_concat), with one and two redundant leading zero bytes (`00`, `0017`, `000017`), "
+                "alone and inside shared pairs, all 256 one-byte atoms; (3) right-, left- and zigzag-leaning trees of depth 2000 and 3000 "
+                "(thorough: up to 15000); (4) DAGs with exponentially many paths: doubling chains up to 2^20 (thorough 2^22) paths, Fibonacci DAGs, "
+                "each also with inner nodes hashed / pre-visited first and with the top allocated only after the cache was used; "
+                "(5) 220 (thorough 6000) random heaps of 2-80 nodes with tunable sharing, each driven through ONE Allocator and ONE TreeCache by a "
+                "random sequence of 1-30 operations: visit_tree, tree_hash_cached, tree_hash, tree_hash_from_bytes(node_to_bytes), "
+                "tree_hash_from_bytes(node_to_bytes_backrefs), ToTreeHash via the TreeHasher encoder, curry_tree_hash vs tree_hash of the real "
+                "CurriedProgram::to_clvm vs CurriedProgram<TreeHash>.tree_hash() with 0-6 arguments, repeated roots, allocation interleaved in 2-4 chunks; "
+                "(6) tree_hash_from_bytes on byte strings: back-references with every one-byte path and selected longer paths (leading zero bytes, "
+                "empty path) into 9 parse-stack shapes incl. references to the stack itself and cached stack lists, all strings of length <= 2 over "
+                "the structural bytes, 12 000 (thorough 200 000) random strings over {ff, fe, small atoms, length prefixes}, 300 (thorough 3000) real "
+                "compressed encodings each with 6 single-point damages (byte replaced, bit flipped, truncated, marker inserted). "
+                "The model line is the SPECIFICATION's hash (hashTable = treeHash(denote heap root)) for every routine; "
+                "non-trivial = distinct case whose output contains at least one hash (not REJECT)",
+        "level_text": "Proof: for every well-formed heap (pairs point to earlier nodes; any sharing) and every pointer, the explicit two-stack machine of "
+                      "tree_hash (same push/pop order, fuel 2*size+1 supplied by the routine) returns treeHash(denote heap n), the SHA-256 tree hash with "
+                      "atom prefix 1 and pair prefix 2 (iter_eq). The TreeCache invariant CacheOK (every memoised slot of a pair holds the tree hash of what "
+                      "the pair denotes, size limits) holds for the empty cache and is preserved by visit_tree (also proved to terminate within its fuel), "
+                      "by tree_hash_cached, and by the allocator appending nodes; under it tree_hash_cached returns treeHash(denote heap n) and never fails, "
+                      "hence for EVERY sequence of pre-visits and hashes through one shared cache (history_eq) - unbounded sizes, by invariant/induction. "
+                      "Results depend only on the denoted tree (sharing_irrelevant). The 24 PRECOMPUTED_HASHES and the two prefix bytes are regenerated from "
+                      "tree_hash.rs on every run and proved equal to sha256(1 :: canonNat i) by kernel evaluation (precomputed_ok). The model of clvmr's "
+                      "node_from_bytes_backrefs (incl. path traversal into the parse stack and cached stack lists) is proved to build a well-formed heap; "
+                      "if it yields a tree then tree_hash_from_bytes is the tree hash of that tree, it reads the plain serialisation of every tree back as "
+                      "that tree (all five length-prefix classes), so plain and back-reference encodings of one tree hash equally. curry_tree_hash of the "
+                      "hashes equals the tree hash of the actual curried program, for any number of arguments; same for fast_forward's curry_and_treehash.",
+        "level_note": "Trusted: Lean kernel + 3 standard axioms; translator for the table (cross-checked: PRECOMPUTED_HASHES[i] is also read through the Rust "
+                      "constant on every run); hand models = code only on the cases run (all routines' outputs compared with the specification's value on "
+                      "every case; a debug op comparing the memo state cache.get/should_memoize of every pair with the model's agreed on all quick-tier cases). "
+                      "clvmr (Allocator, node_to_bytes, node_to_bytes_backrefs, node_from_bytes_backrefs) is external: modelled, not verified; the allocator's "
+                      "global limits (62.5 M pairs/atoms, heap limit, ghost counters) and the 2^32-3 memo limit are outside the explored range. "
+                      "fast_forward.rs `curry_and_treehash` is a private fn: proved on the model, not reachable from the harness (exercised under C19). "
+                      "Driver-side recursion (denote/serialize) is only used for trees below 8000 nodes; deeper/larger cases use the linear table (hashTable_spec).",
+        "technique": "Lean 4 theorems over an executable heap-with-sharing model (stack machines, cache invariant, back-reference deserialiser) + translator-regenerated table checked by kernel evaluation + differential correspondence on shared heaps and operation histories",
+        "trusted": ["clvmr Allocator / serialisers / back-reference deserialiser are external: modelled (deserialiser) or used as black boxes (serialisers), compared on every case",
+                    "Allocator append-only-ness: assumed (cache_inv_append states what is used); the harness allocates between cache uses",
+                    "fast_forward::curry_and_treehash is private: theorem on the model only"],
+    },
     "C11": {
         "extractors": ["ladders"],
         "extra": "ladders.thresholds",
@@ -92,4 +199,67 @@ PROPS = {
         "level_text": "Proof: (1) limit_exact - for every tree, flags and limit L, if the parse_spends model accepts reporting cost c then c <= L, it accepts with the identical result at limit c, and at every limit below c it fails with cost-exceeded (compositional `Shift` lemma over all guarded subtractions; unbounded). (2) cost_is_table_sum - the reported cost, the condition-cost sub-total and the per-spend condition costs equal the sums prescribed by the cost table (per-spend charge + per-condition pre-charge + SOFTFORK/two-byte extra). (3) the table constants regenerated from opcodes.rs have the documented values and the 256-slot two-byte table equals trunc3(100*17^k/16^k) (kernel computation over exact arithmetic).",
         "level_note": "Trusted: Lean kernel + standard axioms; translator for the constants and the const-fn table algorithm (pinned skeleton, re-evaluated; cross-checked against compute_unknown_condition_cost on all 65 536 opcodes every run); model = code on the cases run. CLVM execution cost and byte cost are outside parse_spends and not covered by these theorems yet.",
     },
+}
+
+
+def _c15_features():
+    """`verif-hooks` (forced interleavings of real threads) only when repo_hook_c15.patch is applied to the
+    repository under test; the harness builds and runs sequential histories without it."""
+    import os
+    try:
+        toml = open(os.path.join(os.environ.get('VERIF_REPO', '/repo'), 'crates', 'chia-bls', 'Cargo.toml')).read()
+    except OSError:
+        return []
+    return []   # the harness crate enables `verif-hooks` (-> chia-bls/verif-hooks) by default
+
+
+PROPS["C15"] = {
+    "extractors": [],
+    "harness": "C15",
+    "features": _c15_features(),
+    "theorems": [
+        "ChiaModel.C15.cap_invariant", "ChiaModel.C15.cap_invariant_new", "ChiaModel.C15.new_zero",
+        "ChiaModel.C15.cap_zero_breaks", "ChiaModel.C15.keys_nodup",
+        "ChiaModel.C15.cache_sound_inv", "ChiaModel.C15.cache_sound_inv_or_collision", "ChiaModel.C15.history_sound",
+        "ChiaModel.C15.transparent", "ChiaModel.C15.transparent_prefix", "ChiaModel.C15.cacheVerify_transparent",
+        "ChiaModel.C15.agree_noinf", "ChiaModel.C15.agree_noinf_sched", "ChiaModel.C15.gt_noinf",
+        "ChiaModel.C15.aggregateVerify_spec", "ChiaModel.C15.verify_spec", "ChiaModel.C15.ideal_correct",
+        "ChiaModel.C15.inf_partial", "ChiaModel.C15.inf_witness", "ChiaModel.C15.inf_witness2",
+        "ChiaModel.C15.inf_full_false", "ChiaModel.C15.pairing_convention",
+    ],
+    "gen_theorems": [],
+    "open": [
+        "inf_full (\"never valid if any key is the point at infinity\" on the cache-assisted path) is FALSE for the current code: "
+        "proved negation witness inf_full_false, replayed on the implementation (corpus/C15.case line 1, known_findings.txt); "
+        "becomes provable with repo_fix_c15.patch",
+    ],
+    "trivial": r"^(nocache|bad-op)",
+    "level": "proof",
+    "rule": "one case = one history on one BlsCache: capacity in {0,1,2,3,50}, 1-25 ops of av (BlsCache::aggregate_verify + aggregate_verify + verify + "
+            "aggregate_verify_gt + aggregate_pairing on the same input) / upd (truthful BlsCache::update) / ev (evict) / len, pair lists of 0-5 pairs over 1-4 real keys "
+            "(SecretKey::from_seed) and the infinity key, message pool incl. empty/32-byte/100-byte messages (repeated keys and messages by construction), signatures "
+            "~50% honest aggregate, else junk term / extra pair / missing pair / wrong message / wrong key / doubled term / Signature::default() / off-subgroup point; "
+            "exhaustive: 0-5 pairs x infinity key at each position x capacities 1,2,3,50; after each av all five verdicts + len(), at the end len() and the cache "
+            "contents in FIFO order (observed through clone/evict/update only). With the verif-hooks feature: 2-3 real threads under forced interleavings "
+            "(random schedules; all 70 interleavings of two 2-pair verifications x 5 list shapes x cold/warm on capacity 1/2/3), compared with runSchedule; "
+            "without it the same ops run as sequential histories. Every history with an infinity key in an av is run twice: mode h (marker @infkey, full observables) "
+            "and mode hm (cache verdict of those av ops masked) so that the known finding cannot hide another disagreement. non-trivial = distinct history on a constructible cache",
+    "level_text": "Proof: over an executable ideal-BLS model (keys = known scalars, hashes = formal generators, G2/GT = normalised formal sums) of the five verifiers as "
+                  "signature.rs composes the primitives, the FIFO cache with put exactly as coded, and a lock-granularity thread model of BlsCache, Lean proves for all "
+                  "capacities, contents, pair lists, signatures, call lists and schedules: (1) cap_invariant - len <= capacity after every atomic step of every schedule "
+                  "(incl. re-insert at capacity; capacity 0 unconstructible and shown necessary); (2) cache_sound_inv - every entry maps sha256(pk|m) to e(pk,H(pk|m)) is "
+                  "preserved by every step given truthful updates, with CollisionFree over the finitely many keys used as explicit hypothesis/disjunct; (3) transparent - "
+                  "every call returns and each cache-assisted verdict = aggregate_verify_gt(sig, true pairings), independent of capacity, prior contents, evictions and "
+                  "interleaving; (4) agree_noinf / aggregateVerify_spec / verify_spec / ideal_correct - without an infinity key all paths return the same verdict, true iff "
+                  "sig = sum sk_i H(pk_i|m_i); aggregate_verify and verify return false with an infinity key; aggregate_pairing under its (pk_i,H_i)...,(-g,sig) convention = aggregate_verify_gt (pairing_convention, via canonicity of normal forms: a - b = 0 <-> a = b); (5) inf_partial + inf_full_false - the cache-assisted path "
+                  "accepts lists containing the infinity key (kernel-checked witness, reproduced on the real code: known finding).",
+    "level_note": "Trusted: Lean kernel + 3 standard axioms; blst (curve, pairing, hash-to-curve) is idealised - real blst verdicts are compared with the ideal verdicts on every case "
+                  "for harness-made keys; model = code only on the histories/schedules run; SHA-256 collisions excluded by the CollisionFree hypothesis (checked on every line); "
+                  "schedules are at lock granularity (the hook sits immediately before each Mutex acquisition) - OS scheduling inside a lock scope and Mutex poisoning are not "
+                  "modelled; public keys off the subgroup are not modelled. Known finding: BlsCache::aggregate_verify accepts pair lists containing the infinity key "
+                  "(repo_fix_c15.patch); with an infinity key aggregate_pairing is reported informationally only.",
+    "technique": "Lean 4 invariants over an executable thread model (induction over schedules) + differential correspondence on operation histories and forced real-thread interleavings",
+    "trusted": ["blst (pairing, hash_to_g2, point validity) idealised as BlsIdeal: free Z-module on augmented-message generators; every real verdict is compared with the ideal one",
+                "linked-hash-map insertion-order semantics (insert of an existing key moves it to the back) modelled by hand; FIFO order is observed on every case",
+                "schedules with real threads require repo_hook_c15.patch (cargo feature verif-hooks of chia-bls); without it only sequential histories are run"],
 }
